@@ -1255,3 +1255,20 @@ def b_track_add(tier, rnd):
                 cases.append((copy.deepcopy(t), item, v))
     return {"rule": "46 tracks (empty; 5 meters x 9 fill states of the last bar, with and without a bar before it) x 9 values "
                     "x {rest, container}", "cases": cases}
+
+
+@battery("nc_remove")
+def b_nc_remove(tier, rnd):
+    from mingus.containers.note import Note
+    from mingus.containers.note_container import NoteContainer
+    sets = [[], ["C"], [["C", 3], ["C", 5]], ["C", "E", "G"], [["E", 2], ["C", 4], ["E", 4], ["E", 6]], ["B#", "Db", "C#"],
+            [["C", 4], ["B#", 3]], ["C", "E", "G", "B", "D"]]
+    cases = []
+    for st in sets:
+        for nm in ("C", "E", "B#", "Db", "C#", "F", "X"):
+            for o in (-1, 3, 4, 5):
+                cases.append((NoteContainer(list(st)), nm, o))
+            for o in (3, 4):
+                cases.append((NoteContainer(list(st)), Note(nm, o) if nm != "X" else Note("A", o), -1))
+    return {"rule": "8 containers (0..5 notes, octave doublings, enharmonic twins) x 7 names x octaves {-1, 3, 4, 5} by name, "
+                    "x octaves {3, 4} by Note", "cases": cases}
